@@ -264,6 +264,11 @@ def analyse(c: Dict[str, Any]) -> Dict[str, Any]:
         try:
             res["texts"][f"V{i}"] = ref_json_text(v)
         except Exception as ex:  # noqa
+            # a value JSON cannot spell (a type, a function): serialising it raises — but `-n -b` never serialises, it only
+            # asks whether the value is a boolean, so there the value is an ordinary non-boolean value (status 2)
+            if null_in and c.get("b"):
+                res["texts"][f"V{i}"] = ""
+                return f"V{i}"
             return "R:" + type(ex).__name__
         return f"V{i}"
 
